@@ -24,9 +24,9 @@ const char *vf_harness_name() { return "c06"; }
 namespace {
 const int MAXT = 4, NSH = 3, NWK = 2;
 const size_t STACK = 256 * 1024;
-enum ScriptOp { O_SHARE, O_RESET, O_WEAK_FROM, O_LOCK, O_WEAK_RESET, NSOPS };
-const char *SOPN[] = {"share", "reset", "weak_from", "lock", "weak_reset"};
-enum CurKind { K_NONE, K_SHARE, K_RESET, K_WEAK_FROM, K_LOCK, K_WEAK_RESET };
+enum ScriptOp { O_SHARE, O_RESET, O_WEAK_FROM, O_LOCK, O_WEAK_RESET, O_UNIQUE, NSOPS };
+const char *SOPN[] = {"share", "reset", "weak_from", "lock", "weak_reset", "unique"};
+enum CurKind { K_NONE, K_SHARE, K_RESET, K_WEAK_FROM, K_LOCK, K_WEAK_RESET, K_UNIQUE };
 
 struct Obj { cstl_shared_ptr_t sp; bool is_owner; bool busy; };
 
@@ -42,11 +42,15 @@ struct Fibre {
     Obj S[NSH];
     cstl_weak_ptr_t W[NWK];
     bool w_set[NWK];
+    bool w_busy[NWK];
     int cur_kind;
     uint64_t hist;              // hash of everything this fibre observed so far
     // lock oracle
     bool lock_active, lock_after_destroy;
     std::set<Obj *> lock_stable;
+    // unique() oracle: other references (owner objects / weak slots) held and not operated on during the whole call
+    bool uniq_active, uniq_disturbed;
+    std::set<const void *> uniq_stable;
     int steps;
 };
 
@@ -85,6 +89,7 @@ uint64_t state_hash()
         h = hmix(h, F[t].hist);
         h = hmix(h, (F[t].done ? 1 : 0) | (F[t].parked ? 2 : 0) | (F[t].lock_active ? 4 : 0) | (F[t].lock_after_destroy ? 8 : 0));
         h = hmix(h, F[t].lock_stable.size());
+        h = hmix(h, F[t].uniq_stable.size() * 4 + (F[t].uniq_active ? 2 : 0) + (F[t].uniq_disturbed ? 1 : 0));
     }
     for (auto &kv : g_atoms) { h = hmix(h, kv.first); h = hmix(h, kv.second); }
     h = hmix(h, (uint64_t)g_clr_count * 64 + g_managed_frees * 8 + g_book_frees + (g_destroy_started ? 4096 : 0));
@@ -239,7 +244,18 @@ void op_begin(Fibre &f, Obj *o, int kind)
         // an operation starts on o: it no longer counts as "held throughout" for locks in progress
         for (int t = 0; t < T; t++) if (F[t].lock_active) F[t].lock_stable.erase(o);
     }
+    // any operation of another thread that starts while a unique() call is in progress may add or drop a reference
+    for (int t = 0; t < T; t++) if (F[t].uniq_active && &F[t] != &f) {
+        F[t].uniq_disturbed = true;
+        if (o) F[t].uniq_stable.erase(o);
+    }
 }
+void weak_begin(Fibre &f, int k)
+{
+    f.w_busy[k] = true;
+    for (int t = 0; t < T; t++) if (F[t].uniq_active && &F[t] != &f) F[t].uniq_stable.erase(&f.W[k]);
+}
+void weak_end(Fibre &f, int k) { f.w_busy[k] = false; }
 void op_end(Fibre &f, Obj *o)
 {
     f.cur_kind = K_NONE;
@@ -292,8 +308,10 @@ void do_op(Fibre &f, int op, uint8_t arg)
         if (!src) { CNT("noop.weak_from"); return; }
         int k = arg % NWK;
         op_begin(f, nullptr, K_WEAK_FROM);
+        weak_begin(f, k);
         LIB(cstl_weak_ptr_from(&f.W[k], &src->sp));
         f.w_set[k] = true;
+        weak_end(f, k);
         op_end(f, nullptr);
         break;
     }
@@ -331,9 +349,39 @@ void do_op(Fibre &f, int op, uint8_t arg)
     case O_WEAK_RESET: {
         int k = arg % NWK;
         op_begin(f, nullptr, K_WEAK_RESET);
+        weak_begin(f, k);
         LIB(cstl_weak_ptr_reset(&f.W[k]));
         f.w_set[k] = false;
+        weak_end(f, k);
         op_end(f, nullptr);
+        break;
+    }
+    case O_UNIQUE: {
+        Obj *o = first_owner(f);
+        if (!o) { CNT("noop.unique"); return; }
+        f.cur_kind = K_UNIQUE;
+        f.hist = hmix(2000 + f.id, (uint64_t)++g_opseq[f.id]);
+        // references other than o itself that are held and not being operated on right now
+        f.uniq_stable.clear();
+        size_t others_any = 0;
+        for (int t = 0; t < T; t++) {
+            for (auto &x : F[t].S) if (&x != o) { if (x.is_owner || x.busy) others_any++; if (x.is_owner && !x.busy) f.uniq_stable.insert(&x); }
+            for (int k = 0; k < NWK; k++) { if (F[t].w_set[k] || F[t].w_busy[k]) others_any++; if (F[t].w_set[k] && !F[t].w_busy[k]) f.uniq_stable.insert(&F[t].W[k]); }
+        }
+        bool others_busy_op = false;
+        for (int t = 0; t < T; t++) if (&F[t] != &f && F[t].cur_kind != K_NONE) others_busy_op = true;
+        f.uniq_disturbed = others_busy_op;
+        f.uniq_active = true;
+        bool u;
+        LIB(u = cstl_shared_ptr_unique(&o->sp));
+        f.uniq_active = false;
+        f.cur_kind = K_NONE;
+        if (u) CNT("class.unique.true"); else CNT("class.unique.false");
+        if (!f.uniq_stable.empty() && u)
+            verif_fail("C06.unique.must_be_false", "thread %d: unique() returned true although another shared or weak reference was held during the whole call", f.id);
+        if (others_any == 0 && !f.uniq_disturbed && !u)
+            verif_fail("C06.unique.must_be_true", "thread %d: unique() returned false although no other reference existed during the call", f.id);
+        f.uniq_stable.clear();
         break;
     }
     }
@@ -349,7 +397,7 @@ void fibre_main(int id)
     for (int i = 0; i < f.len; i++) do_op(f, f.ops[i] % NSOPS, f.ops[i] / NSOPS);
     // every thread finally lets go of everything it holds
     for (auto &o : f.S) if (o.is_owner) { op_begin(f, &o, K_RESET); LIB(cstl_shared_ptr_reset(&o.sp)); op_end(f, &o); }
-    for (int k = 0; k < NWK; k++) if (f.w_set[k]) { op_begin(f, nullptr, K_WEAK_RESET); LIB(cstl_weak_ptr_reset(&f.W[k])); f.w_set[k] = false; op_end(f, nullptr); }
+    for (int k = 0; k < NWK; k++) if (f.w_set[k]) { op_begin(f, nullptr, K_WEAK_RESET); weak_begin(f, k); LIB(cstl_weak_ptr_reset(&f.W[k])); f.w_set[k] = false; weak_end(f, k); op_end(f, nullptr); }
     f.done = true;
     switch_to_sched();
     abort();    // never resumed
@@ -437,6 +485,9 @@ void setup_scenario(Cursor &c)
         f.hist = 77 + t;
         f.lock_active = f.lock_after_destroy = false;
         f.lock_stable.clear();
+        f.uniq_active = f.uniq_disturbed = false;
+        f.uniq_stable.clear();
+        f.w_busy[0] = f.w_busy[1] = false;
         f.steps = 0;
         f.len = 1 + len[t] % 4;
         memcpy(f.ops, ops[t], 4);
@@ -530,7 +581,7 @@ void vf_gen(Rng &r, std::vector<uint8_t> &out)
         out.push_back(r.byte());
         for (int i = 0; i < 4; i++) {
             // bias towards lock / reset
-            uint8_t op = r.chance(1, 2) ? (uint8_t)(r.chance(1, 2) ? O_LOCK : O_RESET) : (uint8_t)r.below(NSOPS);
+            uint8_t op = r.chance(1, 2) ? (uint8_t)(r.chance(1, 2) ? O_LOCK : O_RESET) : (uint8_t)r.below(NSOPS);   // (unique among them)
             out.push_back((uint8_t)(op + NSOPS * r.below(50)));
         }
     }
@@ -594,9 +645,10 @@ int engine_g5a(const std::string &catalogue, uint64_t cap, const std::string &ou
     std::vector<std::vector<uint8_t>> scen;
     // op codes with argument: LOCK into a free slot (arg 0), LOCK into slot0 even if occupied (arg 4)
     const int LOCKF = O_LOCK, LOCKO = O_LOCK + NSOPS * 4;
-    std::vector<std::vector<int>> scripts1 = {{O_RESET}, {LOCKF}, {O_SHARE}, {O_WEAK_FROM}, {O_WEAK_RESET}, {LOCKO}};
+    std::vector<std::vector<int>> scripts1 = {{O_RESET}, {LOCKF}, {O_SHARE}, {O_WEAK_FROM}, {O_WEAK_RESET}, {LOCKO}, {O_UNIQUE}};
     std::vector<std::vector<int>> scripts2 = {{O_RESET}, {LOCKF}, {LOCKF, LOCKF}, {O_SHARE, O_RESET}, {O_RESET, LOCKF}, {LOCKF, O_WEAK_RESET},
-                                              {O_WEAK_FROM, O_RESET}, {LOCKO}, {O_SHARE, O_RESET, O_RESET}, {O_WEAK_RESET}, {O_RESET, O_RESET}};
+                                              {O_WEAK_FROM, O_RESET}, {LOCKO}, {O_SHARE, O_RESET, O_RESET}, {O_WEAK_RESET}, {O_RESET, O_RESET},
+                                              {O_UNIQUE}, {O_UNIQUE, O_RESET}, {O_SHARE, O_UNIQUE}};
     auto cfgs = std::vector<std::pair<int, int>>{{1, 0}, {0, 1}, {1, 1}, {2, 0}, {0, 2}, {2, 1}};
     if (catalogue == "two") {
         for (auto &c0 : cfgs) for (auto &c1 : cfgs) for (auto &s0 : scripts2) for (auto &s1 : scripts2) {
